@@ -354,8 +354,8 @@ def specProc (s : St) (pid : Nat) (t : Rat) (ph : Phase) (tick : Nat) (vals : Li
         s := s.propfail s!"kind=waitChange-unchanged pid={pid} time={showRat t} before={vals0.map showBits} after={vals.map showBits}"
     | .ws =>
       s := s.count "check:waitStable"
-      -- a process that is itself running inside `commitState` waits for the next commit
-      if !((if v.inCommit then t0 < t else t == t0) && ph == .after) then
+      -- a process that is itself running inside `commitState` waits for the next commit (possibly of the same instant)
+      if !((if v.inCommit then !(t < t0) else t == t0) && ph == .after) then
         s := s.propfail s!"kind=waitStable pid={pid} suspended={showRat t0} resumed={showRat t} in-commit={v.inCommit}"
     | _ => pure ()
   | _, none => pure ()
